@@ -515,29 +515,93 @@ def _respond(request):
     return httpx.Response(200, json={"data": {"echo": True}})
 
 
-def _one_sync(client, c, captured, store):
-    captured.clear()
-    try:
+def snap(v):
+    """identity + contents of everything reachable from a caller-owned argument"""
+    import pydantic
+
+    bm = _clients.dep_module("base_model")
+    if isinstance(v, dict):
+        return ("dict", id(v), tuple((repr(k), snap(x)) for k, x in v.items()))
+    if isinstance(v, list):
+        return ("list", id(v), tuple(snap(x) for x in v))
+    if isinstance(v, pydantic.BaseModel):
+        return ("model", id(v), type(v).__name__, tuple(sorted(v.model_fields_set)),
+                tuple((k, snap(x)) for k, x in v.__dict__.items()))
+    if isinstance(v, bm.Upload):
+        return ("upload", id(v), v.filename, v.content_type, id(v.content))
+    return ("leaf", type(v).__name__, repr(v))
+
+
+def snap_diff(a, b, path="variables"):
+    if a == b:
+        return None
+    if a[0] != b[0] or a[0] in ("leaf", "upload"):
+        return f"{path}: {a[0]} {a[2:] if a[0] != 'leaf' else a[2]} became {b[0]} {b[2:] if b[0] != 'leaf' else b[2]}"
+    if a[1] != b[1]:
+        return f"{path}: object replaced"
+    if a[0] == "model":
+        if a[3] != b[3]:
+            return f"{path}: fields_set {a[3]} became {b[3]}"
+        ka, kb = a[4], b[4]
+    else:
+        ka, kb = a[2], b[2]
+    if len(ka) != len(kb):
+        return f"{path}: {len(ka)} entries became {len(kb)}"
+    for n, (x, y) in enumerate(zip(ka, kb)):
+        if a[0] == "list":
+            d = snap_diff(x, y, f"{path}[{n}]")
+        else:
+            if x[0] != y[0]:
+                return f"{path}: key {x[0]} became {y[0]}"
+            d = snap_diff(x[1], y[1], f"{path}[{x[0]}]")
+        if d:
+            return d
+    return f"{path}: changed"
+
+
+def _prepare(c, store, cache):
+    """the caller's objects for this call; with a cache (histories) the very same variables dict / headers dict
+    objects are handed to execute again when the same tree / headers recur"""
+    if cache is not None and getattr(c, "reuse", False):
+        key = ("v", json.dumps(c.vs, default=str))
+        if key not in cache:
+            cache[key] = build_py(c.vs, store, c.upcfg)
+        variables = cache[key]
+        kw = c.kwargs()
+        if "headers" in kw:
+            kw["headers"] = cache.setdefault(("h", c.hname), kw["headers"])
+    else:
         variables = build_py(c.vs, store, c.upcfg)
-        st = store.state()
-    except Exception as e:  # noqa: BLE001
-        return ("raised", "harness:" + type(e).__name__, None, {})
-    try:
-        resp = client.execute(c.query, operation_name=c.opname, variables=variables, **c.kwargs())
-        return ("sent", captured.get("req"), canon(client.get_data(resp)), st)
-    except Exception as e:  # noqa: BLE001
-        return ("raised", type(e).__name__, captured.get("req"), st)
+        kw = c.kwargs()
+    return variables, kw
 
 
-async def _one_async(client, c, captured, store):
+def _one_sync(client, c, captured, store, cache=None):
     captured.clear()
-    variables = build_py(c.vs, store, c.upcfg)
+    variables, kw = _prepare(c, store, cache)
     st = store.state()
+    before = (snap(variables), snap(kw))
     try:
-        resp = await client.execute(c.query, operation_name=c.opname, variables=variables, **c.kwargs())
-        return ("sent", captured.get("req"), canon(client.get_data(resp)), st)
+        resp = client.execute(c.query, operation_name=c.opname, variables=variables, **kw)
+        r = ("sent", captured.get("req"), canon(client.get_data(resp)), st)
     except Exception as e:  # noqa: BLE001
-        return ("raised", type(e).__name__, captured.get("req"), st)
+        r = ("raised", type(e).__name__, captured.get("req"), st)
+    after = (snap(variables), snap(kw))
+    return r + (snap_diff(before[0], after[0]) or snap_diff(before[1], after[1], "kwargs"), store.state())
+
+
+async def _one_async(client, c, captured, store, cache=None):
+    captured.clear()
+    variables, kw = _prepare(c, store, cache)
+    st = store.state()
+    before = (snap(variables), snap(kw))
+    try:
+        resp = await client.execute(c.query, operation_name=c.opname, variables=variables, **kw)
+        r = ("sent", captured.get("req"), canon(client.get_data(resp)), st)
+    except Exception as e:  # noqa: BLE001
+        r = ("raised", type(e).__name__, captured.get("req"), st)
+    after = (snap(variables), snap(kw))
+    return r + (snap_diff(before[0], after[0]) or snap_diff(before[1], after[1], "kwargs"), store.state())
 
 
 def _run_variant(args):
@@ -665,12 +729,13 @@ def _run_histories(args):
         for h in histories:
             store = UploadStore(tmp)
             steps = []
+            cache = {}
             for slot, c in h:
                 v, client, cap, _ = pool[slot]
                 if v.is_async:
-                    steps.append(await _one_async(client, c, cap, store))
+                    steps.append(await _one_async(client, c, cap, store, cache))
                 else:
-                    steps.append(_one_sync(client, c, cap, store))
+                    steps.append(_one_sync(client, c, cap, store, cache))
             store.close()
             out.append(steps)
         same = [client_attrs(client) == before for _, client, _, before in pool]
@@ -705,6 +770,7 @@ def wire_nonown(o, drop_multipart_ct):
 
 # ------------------------------------------------------------------ model request -> expectations
 MODEL_BYTES = {}
+MODEL_POS = {}
 
 
 def check_against_model(c: Call, m, obs, client_headers=None):
@@ -766,6 +832,11 @@ def check_against_model(c: Call, m, obs, client_headers=None):
                 want.append((name, fn, ct, MODEL_BYTES[(content, pos, kind != "nonseek")]))
             if parts != want:
                 diffs.append(f"parts {parts} != model {want}")
+            for name, uid in files:
+                kind, pos = state.get(int(uid), ("bytesio", 0))
+                exp_pos = MODEL_POS[(upload_attrs(int(uid))[1], pos, kind != "nonseek")]
+                if len(obs) > 5 and obs[5].get(int(uid), (kind, exp_pos))[1] != exp_pos:
+                    diffs.append(f"stream of upload {uid} left at {obs[5][int(uid)][1]}, model after_send {exp_pos}")
     return diffs
 
 
@@ -895,7 +966,9 @@ def run(ctx):
                 "client variants captured at httpx.MockTransport: (1) every call on one long-lived client object per "
                 "variant (one long history), (2) histories of 2-5 calls over a pool of 12 client objects in one "
                 "interpreter with Upload objects living for the whole history (re-sent, through other client objects "
-                "too), (3) concurrent batches; every captured request is compared with the stateless model's prediction "
+                "too; the very same variables dict / nested list / headers dict OBJECTS handed to execute again), (3) "
+                "concurrent batches; the caller's variables and kwargs deep-snapshotted (identity + contents, models, "
+                "Uploads, stream positions) before/after every call; every captured request is compared with the stateless model's prediction "
                 "for that call alone (all non-httpx wire headers, body, parts byte for byte); module-level state "
                 "(globals, class attributes, function defaults of the six dependency modules) and vars(client) "
                 "snapshotted before/after; non-trivial = tree with a container or an upload; distinct by (tree, headers)")
@@ -926,17 +999,19 @@ def run(ctx):
     nh = 400 if ctx.thorough else 70
     n_slots = 2 * len(variants)
     histories = []
+    with_containers = [c for c in mains if features(c.vs) & {"list", "dict", "model"} and "up" in features(c.vs)] or mains
     for hi in range(nh):
         steps = []
         n = rng.randint(2, 5)
         shape = rng.choice(["mixed", "mixed", "same-client", "resend"])
         slot0 = rng.randrange(n_slots)
-        base = rng.choice(mains)
+        base = rng.choice(with_containers if shape == "resend" and rng.random() < 0.8 else mains)
         cfg = {i: (rng.choice(STREAM_KINDS), rng.choice(POSITIONS)) for i in range(N_UPLOADS)}
         for k in range(n):
             src = base if (shape == "resend" and rng.random() < 0.7) else rng.choice(mains)
             hname, h = rng.choice(HEADERS)
             cc = Call(len(calls), "hist", src.vs, hname, h, rng.choice([None, 3, 7]), src.query, src.opname, cfg)
+            cc.reuse = shape == "resend" or rng.random() < 0.5   # same variables/headers OBJECTS as earlier steps
             calls.append(cc)
             steps.append((slot0 if shape == "same-client" else rng.randrange(n_slots), cc))
         histories.append(steps)
@@ -959,6 +1034,7 @@ def run(ctx):
             run.broken("model sent_bytes", repr(r))
             return
         MODEL_BYTES[(content, pos, seekable)] = r[0].encode()
+        MODEL_POS[(content, pos, seekable)] = int(r[1])
     with ProcessPoolExecutor(max_workers=len(variants) + 1) as ex:
         hfut = ex.submit(_run_histories, (histories, ctx.seed))
         res = list(ex.map(_run_variant, [(i, calls, batches, ctx.seed + i) for i in range(len(variants))]))
@@ -983,6 +1059,8 @@ def run(ctx):
             if d:
                 k1.append((tree_size(c.vs) + 100 * k, vname, c, [f"{where}: " + d[0]] + d[1:], hist_rep))
             probs, cls = k3_property(c, obs, ch)
+            if len(obs) > 4 and obs[4]:
+                probs = [f"execute mutated its caller's arguments: {obs[4]}"] + probs
             if probs:
                 k3.append((tree_size(c.vs) + 100 * k, vname, c, [f"{where}: " + probs[0]] + probs[1:], cls, hist_rep))
             run.dist("history_step", str(k + 1))
@@ -1021,8 +1099,12 @@ def run(ctx):
                 # nothing may be sent: the property's "UNSET never sent"
                 if obs[0] == "sent" and obs[1] is not None and "unset" in json.dumps(obs[1], default=str).lower():
                     k3.append((tree_size(c.vs), vname, c, ["UNSET reached the wire"], None))
+                if len(obs) > 4 and obs[4]:
+                    k3.append((tree_size(c.vs), vname, c, [f"execute mutated its caller's arguments: {obs[4]}"], None))
                 continue
             probs, cls = k3_property(c, obs, CLIENT_HEADERS)
+            if len(obs) > 4 and obs[4]:
+                probs = [f"execute mutated its caller's arguments: {obs[4]}"] + probs
             if f_dict and probs and cls is None and probs[0].startswith("no request sent"):
                 cls = "C11-model-under-dict"
             if probs:
